@@ -7,7 +7,7 @@ theorem Counts.congr {w w' : World} (h : Counts w) (hH : w'.H = w.H) (hs : w'.st
     (hst : w'.stack = w.stack) (hn : w'.next = w.next) (hheap : w'.heap = w.heap) (hpc : w'.pc = w.pc)
     (hm : w'.metas = w.metas) : Counts w' := by
   have hr : ∀ x, refs w' x = refs w x := fun x => refs_congr w w' x hH hs (by rw [hst]) hn (fun u _ => by rw [hheap])
-  exact ⟨fun x hx => by rw [hr, hheap]; exact h.le x (by rw [← hheap]; exact hx),
+  exact ⟨fun x => by rw [hr, hheap]; exact h.le x,
          fun x hx => by rw [hr]; exact h.fresh x (by rw [← hn]; exact hx),
          fun f hf i hi => by rw [hn]; exact h.frames f (by rw [← hst]; exact hf) i hi,
          fun x hx => by rw [hn]; exact h.pcb x (by rw [← hpc]; exact hx),
@@ -63,15 +63,15 @@ theorem resolveN_lt {w : World} (h : Counts w) {self : Option Id} (hself : ∀ s
 paid for by the count (`Δrefs ≤ Δrc`), it creates no pointer to unallocated identities, and new frames / buffer
 entries name allocated objects. -/
 theorem Counts.build {w w' : World} (h : Counts w) (hn : w'.next = w.next)
-    (hle : ∀ x, (w'.heap x).boxLive = true → (w.heap x).boxLive = true ∧ refs w' x + (w.heap x).rc ≤ refs w x + (w'.heap x).rc)
+    (hle : ∀ x, refs w' x + (w.heap x).rc ≤ refs w x + (w'.heap x).rc)
     (hfresh : ∀ x, w.next ≤ x → refs w' x ≤ refs w x)
     (hframes : ∀ f ∈ w'.stack, f ∈ w.stack ∨ ∀ i ∈ f.ids, i < w.next)
     (hpc : ∀ x ∈ w'.pc, x ∈ w.pc ∨ x < w.next)
     (hm : ∀ x, w.next ≤ x → (w'.metas x).accessible = false) : Counts w' := by
   refine ⟨?_, ?_, ?_, ?_, ?_⟩
-  · intro x hx
-    obtain ⟨h1, h2⟩ := hle x hx
-    have := h.le x h1
+  · intro x
+    have h2 := hle x
+    have := h.le x
     omega
   · intro x hx
     rw [hn] at hx
@@ -92,17 +92,17 @@ theorem Counts.build {w w' : World} (h : Counts w) (hn : w'.next = w.next)
 
 /-- `Counts` with some extra pointers in flight (held by a frame that has just been popped). -/
 structure CountsH (w : World) (extra : List Id) : Prop where
-  le : ∀ x, (w.heap x).boxLive = true → refs w x + extra.count x ≤ (w.heap x).rc
+  le : ∀ x, refs w x + extra.count x ≤ (w.heap x).rc
   fresh : ∀ x, w.next ≤ x → refs w x + extra.count x = 0
   frames : ∀ f ∈ w.stack, ∀ i ∈ f.ids, i < w.next
   pcb : ∀ x ∈ w.pc, x < w.next
   mfresh : ∀ x, w.next ≤ x → (w.metas x).accessible = false
 
 theorem Counts.toH {w : World} (h : Counts w) : CountsH w [] :=
-  ⟨fun x hx => by simpa using h.le x hx, fun x hx => by simpa using h.fresh x hx, h.frames, h.pcb, h.mfresh⟩
+  ⟨fun x => by simpa using h.le x, fun x hx => by simpa using h.fresh x hx, h.frames, h.pcb, h.mfresh⟩
 
 theorem CountsH.toCounts {w : World} {extra : List Id} (h : CountsH w extra) : Counts w :=
-  ⟨fun x hx => by have := h.le x hx; omega, fun x hx => by have := h.fresh x hx; omega, h.frames, h.pcb, h.mfresh⟩
+  ⟨fun x => by have := h.le x; omega, fun x hx => by have := h.fresh x hx; omega, h.frames, h.pcb, h.mfresh⟩
 
 /-- Popping the top frame: its held pointers are in flight, its identities are allocated. -/
 theorem Counts.pop {w : World} (h : Counts w) {f : Frame} {rest : List Frame} (hs : w.stack = f :: rest) :
@@ -115,7 +115,7 @@ theorem Counts.pop {w : World} (h : Counts w) {f : Frame} {rest : List Frame} (h
     show _ = (optIds w.H).count x + w.stash x + (held rest).count x + fieldRefs w x + _
     omega
   refine ⟨⟨?_, ?_, ?_, ?_, ?_⟩, ?_⟩
-  · intro x hx; have := h.le x hx; rw [hr] at this; exact this
+  · intro x; have := h.le x; rw [hr] at this; exact this
   · intro x hx; have := h.fresh x hx; rw [hr] at this; exact this
   · intro g hg i hi; exact h.frames g (by rw [hs]; exact List.mem_cons_of_mem _ hg) i hi
   · exact h.pcb
@@ -129,16 +129,15 @@ theorem CountsH.lt_of_mem {w : World} {extra : List Id} (h : CountsH w extra) {y
 
 /-- Generalised builder (see `Counts.build`): the in-flight pointers may be consumed. -/
 theorem CountsH.build {w w' : World} {extra : List Id} (h : CountsH w extra) (hn : w'.next = w.next)
-    (hle : ∀ x, (w'.heap x).boxLive = true → (w.heap x).boxLive = true ∧
-      refs w' x + (w.heap x).rc ≤ refs w x + extra.count x + (w'.heap x).rc)
+    (hle : ∀ x, refs w' x + (w.heap x).rc ≤ refs w x + extra.count x + (w'.heap x).rc)
     (hfresh : ∀ x, w.next ≤ x → refs w' x ≤ refs w x + extra.count x)
     (hframes : ∀ f ∈ w'.stack, f ∈ w.stack ∨ ∀ i ∈ f.ids, i < w.next)
     (hpc : ∀ x ∈ w'.pc, x ∈ w.pc ∨ x < w.next)
     (hm : ∀ x, w.next ≤ x → (w'.metas x).accessible = false) : Counts w' := by
   refine ⟨?_, ?_, ?_, ?_, ?_⟩
-  · intro x hx
-    obtain ⟨h1, h2⟩ := hle x hx
-    have := h.le x h1
+  · intro x
+    have h2 := hle x
+    have := h.le x
     omega
   · intro x hx
     rw [hn] at hx
